@@ -25,6 +25,10 @@ type c19Case struct {
 	Prep      int
 	M         int
 	Seed      int64
+	// second family: the picture lives in another concrete standard-library image type
+	// (a view at OX,OY into a larger parent of that type); see typedView
+	Typed  string `json:",omitempty"`
+	OX, OY int    `json:",omitempty"`
 }
 
 var c19Placements = []string{"sub35", "negorigin", "stride", "poison00", "poisonFF", "generic", "genericRGBA", "genericNRGBA64", "longpix", "subodd",
@@ -151,6 +155,9 @@ func place(src *image.NRGBA, how string) (img image.Image, parent *image.NRGBA) 
 func first2(a, b *image.NRGBA) (image.Image, *image.NRGBA) { return a, b }
 
 func (cs *c19Case) key() string {
+	if cs.Typed != "" {
+		return fmt.Sprintf("storage %dx%d type=%s origin=(%d,%d) lossless=%v sharp=%v prep=%d m=%d", cs.W, cs.H, cs.Typed, cs.OX, cs.OY, cs.Lossless, cs.Sharp, cs.Prep, cs.M)
+	}
 	return fmt.Sprintf("storage %dx%d %s/%s placement=%s lossless=%v exact=%v sharp=%v prep=%d m=%d", cs.W, cs.H, cs.Content, cs.Alpha, cs.Placement, cs.Lossless, cs.Exact, cs.Sharp, cs.Prep, cs.M)
 }
 
@@ -165,6 +172,9 @@ func (cs *c19Case) opts() *webp.EncoderOptions {
 }
 
 func (cs *c19Case) run() string {
+	if cs.Typed != "" {
+		return cs.runTyped()
+	}
 	switch cs.Placement {
 	case "genericRGBA", "genericNRGBA64", "genericRGBASub", "genericNRGBA64Neg", "rgbaSub", "rgbaNeg":
 		if cs.Alpha != "opaque" {
@@ -222,8 +232,21 @@ func init() {
 			}
 			return func(c *choice.Ctx) caseI {
 				cs := &c19Case{Seed: e.Seed}
+				fam := c.PickFree(2, "family")
 				s := sizes[c.PickFree(len(sizes), "size")]
 				cs.W, cs.H = s[0], s[1]
+				if fam == 1 {
+					cs.Typed = c19Types[c.PickFree(len(c19Types), "type")]
+					o := c19Origins[c.PickFree(len(c19Origins), "origin")]
+					cs.OX, cs.OY = o[0], o[1]
+					cs.Lossless = c.PickFree(2, "lossless") == 1
+					cs.M = methods[c.PickFree(len(methods), "method")]
+					if !cs.Lossless {
+						cs.Sharp = c.PickFree(2, "sharp") == 1
+						cs.Prep = []int{0, 2}[c.PickFree(2, "prep")]
+					}
+					return cs
+				}
 				cs.Content = []string{"noise", "c4", "gradient"}[c.PickFree(3, "content")]
 				cs.Alpha = []string{"opaque", "binary", "agradient", "semi"}[c.PickFree(4, "alpha")]
 				cs.Placement = c19Placements[c.PickFree(len(c19Placements), "placement")]
@@ -237,4 +260,167 @@ func init() {
 				return cs
 			}
 		})
+}
+
+// ---- second family: other concrete image types, as views into a larger parent ----
+//
+// The statement's "generic image.Image yielding the same colours": a picture held in an
+// *image.YCbCr (every subsample ratio), *image.Gray, *image.Gray16, *image.Paletted,
+// *image.NRGBA64, *image.RGBA64 or *image.CMYK - as a SubImage view at even, odd and
+// off-chroma-grid origins, or allocated at a negative origin - must encode to the bytes
+// of the plain *image.NRGBA at the origin that holds the same colours (read through At
+// and color.NRGBAModel; all sample values are chosen so that this is exact), and to the
+// bytes of a wrapper that hides the concrete type.  The parent's storage is digested
+// before and after.  One input per importer shortcut a maintainer could add.
+
+var c19Types = []string{"ycbcr444", "ycbcr422", "ycbcr420", "ycbcr440", "ycbcr411", "ycbcr410", "gray", "gray16", "paletted", "palettedA", "nrgba64", "rgba64", "cmyk"}
+
+// origin (-7,-3) = allocated at a negative origin (no parent); the others are views
+var c19Origins = [][2]int{{0, 0}, {1, 1}, {3, 5}, {2, 4}, {4, 8}, {-7, -3}, {1, 0}, {0, 1}}
+
+type hideType struct{ image.Image }
+
+func c19h(x, y, k int, seed int64) byte {
+	v := uint32(x*7349+y*9151+k*977) ^ uint32(seed*2654435761)
+	v ^= v >> 13
+	v *= 0x5bd1e995
+	v ^= v >> 15
+	return byte(v)
+}
+
+// typedView builds the view and returns it with a function that digests the storage it
+// is a window of.
+func typedView(typ string, ox, oy, w, h int, seed int64) (image.Image, func() string) {
+	var pr image.Rectangle
+	if ox < 0 {
+		pr = image.Rect(ox, oy, ox+w, oy+h)
+	} else {
+		pr = image.Rect(0, 0, ox+w+5, oy+h+3)
+	}
+	vr := image.Rect(ox, oy, ox+w, oy+h)
+	// smooth-ish value with neighbour-to-neighbour variation
+	val := func(x, y, k int) byte { return byte(int(c19h(x, y, k, seed))/2 + (x*5+y*3+k*40)&0x7f) }
+	switch typ {
+	case "ycbcr444", "ycbcr422", "ycbcr420", "ycbcr440", "ycbcr411", "ycbcr410":
+		ratio := map[string]image.YCbCrSubsampleRatio{"ycbcr444": image.YCbCrSubsampleRatio444, "ycbcr422": image.YCbCrSubsampleRatio422, "ycbcr420": image.YCbCrSubsampleRatio420,
+			"ycbcr440": image.YCbCrSubsampleRatio440, "ycbcr411": image.YCbCrSubsampleRatio411, "ycbcr410": image.YCbCrSubsampleRatio410}[typ]
+		par := image.NewYCbCr(pr, ratio)
+		for i := range par.Y {
+			par.Y[i] = val(i%par.YStride, i/par.YStride, 0)
+		}
+		for i := range par.Cb {
+			par.Cb[i] = val(i%par.CStride, i/par.CStride, 1)
+			par.Cr[i] = val(i%par.CStride, i/par.CStride, 2)
+		}
+		return par.SubImage(vr), func() string { return fw.Digest(par.Y) + fw.Digest(par.Cb) + fw.Digest(par.Cr) }
+	case "gray":
+		par := image.NewGray(pr)
+		for i := range par.Pix {
+			par.Pix[i] = val(i%par.Stride, i/par.Stride, 0)
+		}
+		return par.SubImage(vr), func() string { return fw.Digest(par.Pix) }
+	case "gray16":
+		par := image.NewGray16(pr)
+		for i := 0; i+1 < len(par.Pix); i += 2 {
+			v := val((i%par.Stride)/2, i/par.Stride, 0)
+			par.Pix[i], par.Pix[i+1] = v, v // v*257: exactly representable in 8 bits
+		}
+		return par.SubImage(vr), func() string { return fw.Digest(par.Pix) }
+	case "paletted", "palettedA":
+		pal := make(color.Palette, 0, 40)
+		for i := 0; i < 40; i++ {
+			a := byte(255)
+			if typ == "palettedA" {
+				a = []byte{255, 0, 128, 1, 254}[i%5]
+			}
+			pal = append(pal, color.NRGBA{byte(i * 6), byte(255 - i*5), byte(i * 37), a})
+		}
+		par := image.NewPaletted(pr, pal)
+		for i := range par.Pix {
+			par.Pix[i] = val(i%par.Stride, i/par.Stride, 0) % 40
+		}
+		return par.SubImage(vr), func() string { return fw.Digest(par.Pix) }
+	case "nrgba64":
+		par := image.NewNRGBA64(pr)
+		for i := 0; i+1 < len(par.Pix); i += 2 {
+			v := val((i%par.Stride)/2, i/par.Stride, 3)
+			if (i/2)%4 == 3 && v < 40 {
+				v = 255
+			}
+			par.Pix[i], par.Pix[i+1] = v, v
+		}
+		return par.SubImage(vr), func() string { return fw.Digest(par.Pix) }
+	case "rgba64":
+		par := image.NewRGBA64(pr)
+		for i := 0; i+1 < len(par.Pix); i += 2 {
+			v := val((i%par.Stride)/2, i/par.Stride, 4)
+			if (i/2)%4 == 3 {
+				v = 255 // opaque: premultiplied = straight
+			}
+			par.Pix[i], par.Pix[i+1] = v, v
+		}
+		return par.SubImage(vr), func() string { return fw.Digest(par.Pix) }
+	case "cmyk":
+		par := image.NewCMYK(pr)
+		for i := range par.Pix {
+			par.Pix[i] = val((i%par.Stride)/4, i/par.Stride, 5+i%4)
+		}
+		return par.SubImage(vr), func() string { return fw.Digest(par.Pix) }
+	}
+	panic(typ)
+}
+
+func (cs *c19Case) runTyped() string {
+	if cs.OX < 0 && len(cs.Typed) > 5 && cs.Typed[:5] == "ycbcr" {
+		// the standard library's own chroma indexing is wrong for negative coordinates
+		// (truncating division): not a picture this family can state an expectation for
+		return ""
+	}
+	view, digest := typedView(cs.Typed, cs.OX, cs.OY, cs.W, cs.H, cs.Seed)
+	b := view.Bounds()
+	if b.Dx() != cs.W || b.Dy() != cs.H {
+		return "" // (harness) view not of the requested size
+	}
+	// the same colours as a plain NRGBA at the origin
+	canon := image.NewNRGBA(image.Rect(0, 0, cs.W, cs.H))
+	for y := 0; y < cs.H; y++ {
+		for x := 0; x < cs.W; x++ {
+			canon.SetNRGBA(x, y, color.NRGBAModel.Convert(view.At(b.Min.X+x, b.Min.Y+y)).(color.NRGBA))
+		}
+	}
+	if cs.Typed == "palettedA" {
+		// exactness: the palette entries ARE color.NRGBA values
+		p := view.(*image.Paletted)
+		for y := 0; y < cs.H; y++ {
+			for x := 0; x < cs.W; x++ {
+				canon.SetNRGBA(x, y, p.Palette[p.ColorIndexAt(b.Min.X+x, b.Min.Y+y)].(color.NRGBA))
+			}
+		}
+	}
+	refBytes, err, p := encode(canon, cs.opts())
+	if p != "" || err != nil {
+		return fmt.Sprintf("Encode of the plain NRGBA failed: %v %s", err, first(p))
+	}
+	before := digest()
+	got, err, p := encode(view, cs.opts())
+	if p != "" {
+		return "Encode panicked: " + first(p)
+	}
+	if err != nil {
+		return "Encode failed: " + err.Error()
+	}
+	if digest() != before {
+		return "Encode modified the caller's pixel storage"
+	}
+	if !bytes.Equal(got, refBytes) {
+		return fmt.Sprintf("output differs from the encoding of a plain *image.NRGBA holding the same colours (%d vs %d bytes, digests %s vs %s)", len(got), len(refBytes), fw.Digest(got), fw.Digest(refBytes))
+	}
+	hid, err, p := encode(hideType{view}, cs.opts())
+	if p != "" || err != nil {
+		return fmt.Sprintf("Encode of the type-hiding wrapper failed: %v %s", err, first(p))
+	}
+	if !bytes.Equal(hid, refBytes) {
+		return fmt.Sprintf("a wrapper hiding the concrete type gives other bytes than the concrete type (%d vs %d bytes)", len(hid), len(refBytes))
+	}
+	return ""
 }
